@@ -28,6 +28,7 @@ type alphaVal struct {
 }
 
 var longValue = strings.Repeat("long-value/0123456789.", 14) // 308 bytes
+var hugeValue = strings.Repeat("huge-value/0123456789.", 3200) // 70400 bytes: longer than any line buffer of 64 KiB
 
 var alphabet = []alphaVal{
 	{"empty", "", 10},
@@ -40,6 +41,7 @@ var alphabet = []alphaVal{
 	{"hash", "#", 6},
 	{"non-ascii", "é", 6},
 	{"long", longValue, 4},
+	{"huge", hugeValue, 1},
 	{"leading-space", " lead", 2},
 	{"trailing-space", "trail ", 2},
 	{"space-run", "a  b", 2},
@@ -574,6 +576,30 @@ func rtOnce(kd *kind, form string, real value, m *model, choice int) (fail, what
 	}
 	if !parsed.Equal(real) || !real.Equal(parsed) || (kd.hasCompare && (parsed.Compare(real) != 0 || real.Compare(parsed) != 0)) {
 		return "unequal", fmt.Sprintf("set %s written as %q parses to %s, which is not Equal/Compare==0 to the original", m.canon(kd), text, parsed.String()), text
+	}
+	// What a parse returns is the caller's own value: changing it must not show
+	// in what the same text parses to next (nor in the value it was written from).
+	for k, ki := range kd.keys {
+		if ki.flag || ki.textFlag {
+			continue
+		}
+		parsed.Set(k, "changed-after-parsing")
+		break
+	}
+	var again value
+	if kd == depKind {
+		again, err = parseDep(form, text)
+	} else {
+		again, err = parseVer(text)
+	}
+	if err != nil {
+		return "second-parse-error", fmt.Sprintf("%q parsed once and fails the second time: %v", text, err), text
+	}
+	if d := diffModel(kd, again, m); d != "" {
+		return "second-parse-differs", fmt.Sprintf("set %s written as %q parses to %s the second time, after the first parse's result was changed in place: %s", m.canon(kd), text, again.String(), d), text
+	}
+	if d := diffModel(kd, real, m); d != "" {
+		return "original-changed-by-parsed-copy", fmt.Sprintf("set %s: after changing the value parsed from %q the original reads differently: %s", m.canon(kd), text, d), text
 	}
 	return "", "", text
 }
